@@ -74,6 +74,7 @@ namespace lp
         int max_consecutive_block = 0;
         bool livelock             = false;
         std::vector<int> event_order;                // optional: order in which fds' events are handed out (front first)
+        int extra_attempts_allowed = 0;              // write attempts the application itself triggers within one batch (flush calls)
         uint64_t send_calls = 0;
         void reset()
         {
@@ -179,7 +180,7 @@ static ssize_t lp_answer(int fd, size_t len, bool file, const std::function<ssiz
         int c      = ++w.consecutive_block[fd];
         if (c > w.max_consecutive_block)
             w.max_consecutive_block = c;
-        if (c >= lp::kBusyWaitLimit)
+        if (c >= lp::kBusyWaitLimit + w.extra_attempts_allowed)
         {
             // the caller retries without going back to epoll_wait: record the busy-wait verdict and let the
             // descriptor accept data again, so that the execution ends instead of spinning forever
